@@ -627,9 +627,13 @@ func compareAndWriteFile(filePath string, b []byte) (bool, error) {
 	}
 
 	if len(buf) != len(b) {
-		if err := f.Truncate(int64(len(b))); err != nil {
+		// Changing the length in place takes two steps (truncate, write); a
+		// crash in between would leave a sidecar that is neither the old nor
+		// the new content. Replace the file atomically instead.
+		if err := writeFileAtomic(filePath, b, 0775); err != nil {
 			return false, err
 		}
+		return true, nil
 	}
 
 	if _, err := f.WriteAt(b, 0); err != nil {
